@@ -170,7 +170,7 @@ func runC05Concurrent(c *explore.Ctx, arg string) {
 	seen := map[uint64]bool{}
 	d := &explore.ScheduleDFS{
 		Settle: settle, Scenario: "crash-during-" + a.Name(),
-		New:    func() (explore.World, error) { return NewConcWritersKind(a.Kind, a.N, a.Per) },
+		New:    func() (explore.World, error) { return NewConcWritersPre(a.Kind, a.N, a.Per, false, a.Merge, false, a.Pre) },
 		Bound:  a.Bound, Horizon: 400, Stats: c.Stats, Journal: c.JournalHist, Expired: c.Expired,
 		Shards: a.Shards, Shard: a.Shard,
 		Terminal: func(world explore.World, hist []string) []explore.Violation {
@@ -188,7 +188,7 @@ func runC05Concurrent(c *explore.Ctx, arg string) {
 				var acked []string
 				for _, e := range effects[:k] {
 					if e.Kind == "ack" {
-						acked = append(acked, e.Key[2:])
+						acked = append(acked, strings.Split(e.Key[2:], ",")...)
 						continue
 					}
 					fmt.Fprintf(&sig, "%s|%s|%s|%x;", e.Kind, e.Space, e.Key, explore.Hash(string(e.Value)))
@@ -482,6 +482,14 @@ func init() {
 			// points, and for each one every prefix of the effect log it produced
 			for _, k := range []string{"eventlog", "keyvalue-same", "docstore-same"} {
 				for _, x := range c17Units(C17Arg{Kind: k, N: 2, Per: 1, Bound: -1}, 4) {
+					x.Arg, x.Name = "X"+x.Arg, "crash-during-"+x.Name
+					u = append(u, x)
+				}
+			}
+			// a writer against a replication merge on a replica that already holds replicated entries: the merge of
+			// a third writer's entry may start at any schedule point of the write
+			for _, k := range []string{"eventlog", "keyvalue-same"} {
+				for _, x := range c17Units(C17Arg{Kind: k, N: 1, Per: 1, Bound: -1, Merge: 1, Pre: 1}, 2) {
 					x.Arg, x.Name = "X"+x.Arg, "crash-during-"+x.Name
 					u = append(u, x)
 				}
